@@ -2,6 +2,15 @@
 # usage: tools/check.sh <PROPERTY> [quick|thorough]
 # Rebuilds nothing but the verifier binary if missing; govc reloads /repo's
 # working tree (with -tags verif) on every run.
+#
+# thorough = the same obligations with the long solver timeout, followed by the
+# must-fail self-test: every seeded change of this property that the check is
+# recorded to detect (seeded/<name>/meta.json: detected_by_check == yes) is
+# applied to a scratch copy of /repo's working tree, the check is run on the
+# copy and has to report a violation. A seeded change that no longer applies is
+# skipped (reported); a recorded detection that is lost marks the check BROKEN
+# (exit 2), not the repository. Scratch copies live under $TMPDIR and are
+# removed as soon as used.
 set -u
 cd /verif
 export GOFLAGS=-mod=mod GOPROXY=off GOSUMDB=off GOTOOLCHAIN=local
@@ -9,4 +18,40 @@ export PATH=$PATH:/usr/local/go/bin
 if [ ! -x bin/govc ] || [ -n "$(find govc -name '*.go' -newer bin/govc 2>/dev/null | head -1)" ]; then
   (cd govc && go build -o /verif/bin/govc .) || { echo "BROKEN: cannot build govc"; exit 2; }
 fi
-exec bin/govc check "$1" "${2:-quick}"
+prop=$1; tier=${2:-quick}
+if [ "$tier" != "thorough" ]; then
+  exec bin/govc check "$prop" "$tier"
+fi
+bin/govc check "$prop" thorough
+rc=$?
+[ $rc -ne 0 ] && exit $rc
+# must-fail self-test on scratch copies
+broken=0; ran=0
+for meta in seeded/*/meta.json; do
+  dir=$(dirname "$meta")
+  p=$(python3 -c "import json,sys;m=json.load(open('$meta'));print(m.get('property',''),m.get('detected_by_check',''))")
+  [ "$p" = "$prop yes" ] || continue
+  scratch=$(mktemp -d "${TMPDIR:-/tmp}/verif-selftest.XXXXXX")
+  rsync -a --exclude .git /repo/ "$scratch/"
+  if ! (cd "$scratch" && patch -p1 -s --dry-run < "/verif/$dir/patch.diff" >/dev/null 2>&1); then
+    echo "SELFTEST: $(basename "$dir"): patch does not apply to the current tree any more (skipped)"
+    rm -rf "$scratch"; continue
+  fi
+  (cd "$scratch" && patch -p1 -s < "/verif/$dir/patch.diff")
+  VERIF_EVIDENCE_DIR="$scratch/.evidence" bin/govc check -repo "$scratch" "$prop" quick > "$scratch/.out" 2>&1
+  src=$?
+  ran=$((ran+1))
+  if [ $src -eq 1 ]; then
+    echo "SELFTEST: $(basename "$dir"): detected ($(grep -c '^VIOLATION' "$scratch/.out") failing obligation(s))"
+  else
+    echo "SELFTEST: $(basename "$dir"): NOT detected any more (exit $src)"
+    broken=1
+  fi
+  rm -rf "$scratch"
+done
+echo "SELFTEST: $ran seeded change(s) re-checked for $prop"
+if [ $broken -ne 0 ]; then
+  echo "BROKEN: the check no longer detects a seeded change it is recorded to detect"
+  exit 2
+fi
+exit 0
